@@ -200,7 +200,12 @@ class SyntaxCheckInstance(Visitor):
     def _visit_call(self, e: Call, ctx: _Ctx):
         match e.func:
             case Var():
-                self._mark_use(e.func.name, ctx.env, ignore_missing=self.ignore_unknown)
+                # an unknown callee may be a foreign function; a callee that
+                # is a local bound on some paths only is not
+                name = e.func.name
+                if isinstance(name, NamedId) and name in ctx.env and not ctx.env[name]:
+                    raise FPySyntaxError(f'variable `{name}` not defined along all paths')
+                self._mark_use(name, ctx.env, ignore_missing=self.ignore_unknown)
             case Attribute():
                 self._visit_attribute(e.func, _Ctx(ctx.env, True))
             case _:
